@@ -49,13 +49,14 @@ Val(t, v, n) == [t |-> t, v |-> v, n |-> n]
 \*   x:<len>:<seed>   binary of len pseudo-random bytes     z:<len>  len zero bytes
 \* The small set is chosen so that values of different type (and length) share
 \* their bytes: bool false, the empty string and a one-byte binary are all 00;
-\* int64 0, double 0.0 and an 8-byte binary are all eight zero bytes.
+\* int64 0, double 0.0 and an 8-byte binary are all eight zero bytes; and so that
+\* two values of one type and length differ in their bytes only (the booleans).
 SmallVals ==
-  { Val("bool", "b:0", 1), Val("int64", "i:0", 8), Val("double", "d:0000000000000000", 8),
+  { Val("bool", "b:0", 1), Val("bool", "b:1", 1), Val("int64", "i:0", 8), Val("double", "d:0000000000000000", 8),
     Val("str", "s:0:0", 1), Val("str", "s:3:1", 4),
     Val("bin", "x:0:0", 0), Val("bin", "z:1", 1), Val("bin", "x:5000:2", 5000) }
 LargeVals == SmallVals \cup
-  { Val("bool", "b:1", 1), Val("int64", "i:-1", 8), Val("int64", "i:-9223372036854775808", 8),
+  { Val("int64", "i:-1", 8), Val("int64", "i:-9223372036854775808", 8),
     Val("double", "d:7ff8000000000000", 8), Val("double", "d:8000000000000000", 8),
     Val("str", "s:40:3", 41), Val("bin", "z:8", 8), Val("bin", "x:1:1", 1), Val("bin", "x:4096:5", 4096) }
 Values == IF ValSet = "small" THEN SmallVals ELSE LargeVals
@@ -145,11 +146,15 @@ LawTyped == \A m \in M, k \in Keys :
               /\ Cardinality({t \in TypeSet : GetTyped(f, k, t) # Absent}) <= 1
               /\ TypedMask(f, k) = (IF Exists(f, k) THEN TypeBit(f[k].t) ELSE 0)
 
-\* algebra of add / del / add_all on the current maps: adding replaces, additions to
-\* different keys commute (the result does not depend on insertion order), ...
+\* algebra of add / del / add_all over ALL finite maps on Keys (not only the reachable ones; evaluated
+\* once, in the initial state): adding replaces, additions to different keys commute (the result does
+\* not depend on insertion order), add_all is idempotent and right-biased, ...
 LawVals == {v \in Values : v.v \in {"b:0", "s:0:0", "z:1"}}   \* same bytes, different type / kind
+AllMaps == [Keys -> Values \cup {Absent}]
+SomeMaps == [Keys -> LawVals \cup {Absent}]
 LawAlgebra ==
-  \A m \in M : LET f == maps[m] IN
+  (path = <<>>) =>
+  \A f \in AllMaps :
     /\ \A k \in Keys, v1 \in LawVals, v2 \in LawVals :
          /\ AddF(AddF(f, k, v1), k, v2) = AddF(f, k, v2)
          /\ Get(AddF(f, k, v1), k) = v1
@@ -164,10 +169,14 @@ LawAlgebra ==
     /\ AddAllF(f, f) = f
     /\ AddAllF(f, AllAbsent(Keys)) = f
     /\ AddAllF(AllAbsent(Keys), f) = f
-    /\ LET g == maps[Other(m)] IN
+    /\ Equal(f, f)
+    /\ \A g \in SomeMaps :
          /\ AddAllF(AddAllF(f, g), g) = AddAllF(f, g)
          /\ \A k \in Keys : Get(AddAllF(f, g), k) = (IF Exists(g, k) THEN Get(g, k) ELSE Get(f, k))
          /\ Domain(AddAllF(f, g)) = Domain(f) \cup Domain(g)
+         /\ Equal(f, g) = Equal(g, f)
+         /\ Equal(f, g) <=> (f = g)
+         /\ Equal(AddAllF(f, g), AddAllF(g, AddAllF(f, g)))
 
 \* step laws: what one operation may change (clone independence, source of add_all untouched, ...)
 StepLaw ==
